@@ -68,3 +68,13 @@ pub proof fn lemma_job_covers_from(t: Seq<Event>, from0: int, from1: int, out: I
     let k = choose|k: int| from1 <= k < t.len() && is_job_on(#[trigger] t[k], out, b);
     assert(is_job_on(t[k], out, b));
 }
+
+/// the jobs queued since trace position n0 tile [start, start+len) exactly once, in order, each non-empty and at most `bs` long.
+/// Opaque: callers only need `job_covers` / `jobs_within`.
+#[verifier::opaque]
+pub open spec fn jobs_tile(t0: Seq<Event>, t1: Seq<Event>, src: Inode, out: Inode, start: int, len: int, bs: int) -> bool {
+    let n0 = t0.len() as int;
+    let nb = len / bs + (if len % bs > 0 { 1int } else { 0 });
+    &&& t1.len() == n0 + nb
+    &&& forall|k: int| 0 <= k < nb ==> #[trigger] t1[n0 + k] == Event::Job(src, out, start + k * bs, if len - k * bs < bs { len - k * bs } else { bs })
+}
